@@ -1,6 +1,437 @@
-//! (stub) modes of this area are added here; see main.rs for the calling convention.
-use crate::Args;
+//! Connection-level modes (C07-C12, C14): `Token::run` of the real crate on a deterministic
+//! single-task executor with a scripted transport, a gated (closed-loop) client and scripted
+//! request handlers.  The same world is modelled in coq/Async/Conn.v.
+//!
+//! conn_run <cfg> <rscript> <wscript> <segtable> <wire> <handler script>...
+//!   cfg      = [buffer_size, max_conns, vectored(0/1), stop_at]
+//!   rscript  = per poll_read call: n > 0 deliver up to n bytes; 0 = Pending (self-waking);
+//!              4000000001 = read error.  Exhausted: deliver all that is available.
+//!   wscript  = per poll_write(_vectored) call: k > 0 accept up to k bytes; 0 = Pending (self-waking);
+//!              4000000001 = Ok(0); 4000000002 = write error.  Exhausted: accept everything.
+//!   segtable = [gate_end, gate_mgmt, len]*: the client sends `len` more bytes of <wire> once the
+//!              server has written >= gate_end EndRequest records and >= gate_mgmt management replies
+//!              (GetValuesResult / Unknown records).  After the last segment: EOF.
+//!   handler script (one per request, the last one is reused): flat list of ops
+//!      1 n          read(&mut buf[..n])            2           read to end (64-byte reads)
+//!      3 k          fill_buf + consume(min(k,len))  4 s         set_stream(s)
+//!      5            writeable().await              6 s n b..   output_stream(s).write_all(b[..n])
+//!      7 s          output_stream(s).flush()       8 d c       return Ok(ExitStatus d c)
+//!      9 kind       return Err(kind)
+use crate::proto::{config, exit_status};
+use crate::reqp::req_obs;
+use crate::{arg, bytes, nums, Args, PANIC};
+use fastcgi_server::async_io::Request;
+use fastcgi_server::protocol::RecordType;
+use fastcgi_server::ExitStatus;
+use futures_util::future::BoxFuture;
+use futures_util::io::{AsyncBufReadExt, AsyncRead, AsyncReadExt, AsyncWrite, AsyncWriteExt};
+use std::future::Future;
+use std::io::{self, IoSlice};
+use std::panic::{catch_unwind, AssertUnwindSafe};
+use std::pin::Pin;
+use std::sync::atomic::{AtomicBool, Ordering};
+use std::sync::{Arc, Mutex};
+use std::task::{Context, Poll, Wake, Waker};
 
-pub fn dispatch(_mode: &str, _a: &Args) -> Option<Args> {
-    None
+pub fn dispatch(mode: &str, a: &Args) -> Option<Args> {
+    Some(match mode {
+        "conn_run" => conn_run(a),
+        _ => return None,
+    })
+}
+
+const R_ERR: u128 = 4_000_000_001;
+const W_ZERO: u128 = 4_000_000_001;
+const W_ERR: u128 = 4_000_000_002;
+
+struct World {
+    rscript: Vec<u128>,
+    ri: usize,
+    wscript: Vec<u128>,
+    wi: usize,
+    segs: Vec<(u128, u128, usize)>,
+    seg_i: usize,
+    seg_off: usize,
+    wire: Vec<u8>,
+    pos: usize,
+    wlog: Vec<u8>,
+    blocked: bool,
+    vectored: bool,
+}
+
+/// complete records in the write log: (#EndRequest, #GetValuesResult + #Unknown)
+fn count_records(log: &[u8]) -> (u128, u128) {
+    let (mut e, mut m, mut pos) = (0, 0, 0usize);
+    while pos + 8 <= log.len() {
+        let cl = usize::from(log[pos + 4]) * 256 + usize::from(log[pos + 5]);
+        let pl = usize::from(log[pos + 6]);
+        if pos + 8 + cl + pl > log.len() {
+            break;
+        }
+        match log[pos + 1] {
+            3 => e += 1,
+            10 | 11 => m += 1,
+            _ => {},
+        }
+        pos += 8 + cl + pl;
+    }
+    (e, m)
+}
+
+fn errkind(e: &io::Error) -> u128 {
+    use io::ErrorKind::*;
+    match e.kind() {
+        Other => 1,
+        ConnectionAborted => 2,
+        UnexpectedEof => 3,
+        ConnectionReset => 4,
+        InvalidData => 5,
+        WriteZero => 6,
+        BrokenPipe => 7,
+        _ => 8,
+    }
+}
+
+fn kind_of(k: u128) -> io::ErrorKind {
+    use io::ErrorKind::*;
+    match k {
+        2 => ConnectionAborted,
+        3 => UnexpectedEof,
+        4 => ConnectionReset,
+        5 => InvalidData,
+        6 => WriteZero,
+        7 => BrokenPipe,
+        _ => Other,
+    }
+}
+
+#[derive(Clone)]
+struct Reader(Arc<Mutex<World>>);
+#[derive(Clone)]
+struct Writer(Arc<Mutex<World>>);
+
+impl AsyncRead for Reader {
+    fn poll_read(self: Pin<&mut Self>, cx: &mut Context, buf: &mut [u8]) -> Poll<io::Result<usize>> {
+        let mut w = self.0.lock().expect("world");
+        if buf.is_empty() {
+            return Poll::Ready(Ok(0));
+        }
+        // is anything available?
+        while w.seg_i < w.segs.len() && w.seg_off == w.segs[w.seg_i].2 {
+            w.seg_i += 1;
+            w.seg_off = 0;
+        }
+        if w.seg_i == w.segs.len() {
+            return Poll::Ready(Ok(0));          // client closed its side
+        }
+        let (ge, gm, slen) = w.segs[w.seg_i];
+        let (e, m) = count_records(&w.wlog);
+        if e < ge || m < gm {
+            w.blocked = true;                    // the client is waiting for the server: no wake
+            return Poll::Pending;
+        }
+        let r = if w.ri < w.rscript.len() { w.ri += 1; w.rscript[w.ri - 1] } else { u128::MAX };
+        if r == 0 {
+            cx.waker().wake_by_ref();
+            return Poll::Pending;
+        }
+        if r == R_ERR {
+            return Poll::Ready(Err(io::ErrorKind::BrokenPipe.into()));
+        }
+        let n = (r.min(usize::MAX as u128) as usize).min(buf.len()).min(slen - w.seg_off);
+        let pos = w.pos;
+        buf[..n].copy_from_slice(&w.wire[pos..pos + n]);
+        w.pos += n;
+        w.seg_off += n;
+        Poll::Ready(Ok(n))
+    }
+}
+
+impl Writer {
+    fn accept(&self, cx: &mut Context, slices: &[&[u8]]) -> Poll<io::Result<usize>> {
+        let mut w = self.0.lock().expect("world");
+        let total: usize = slices.iter().map(|s| s.len()).sum();
+        let k = if w.wi < w.wscript.len() { w.wi += 1; w.wscript[w.wi - 1] } else { u128::MAX };
+        if k == 0 {
+            cx.waker().wake_by_ref();
+            return Poll::Pending;
+        }
+        if k == W_ZERO {
+            return Poll::Ready(Ok(0));
+        }
+        if k == W_ERR {
+            return Poll::Ready(Err(io::ErrorKind::BrokenPipe.into()));
+        }
+        let mut n = (k.min(usize::MAX as u128) as usize).min(total);
+        let ret = n;
+        for s in slices {
+            let t = n.min(s.len());
+            w.wlog.extend_from_slice(&s[..t]);
+            n -= t;
+        }
+        Poll::Ready(Ok(ret))
+    }
+}
+
+impl AsyncWrite for Writer {
+    fn poll_write(self: Pin<&mut Self>, cx: &mut Context, buf: &[u8]) -> Poll<io::Result<usize>> {
+        self.accept(cx, &[buf])
+    }
+    fn poll_write_vectored(self: Pin<&mut Self>, cx: &mut Context, bufs: &[IoSlice<'_>]) -> Poll<io::Result<usize>> {
+        let vectored = self.0.lock().expect("world").vectored;
+        if vectored {
+            let v: Vec<&[u8]> = bufs.iter().map(|b| &**b).collect();
+            self.accept(cx, &v)
+        } else {
+            // futures-io default: first non-empty slice
+            let first = bufs.iter().find(|b| !b.is_empty()).map_or(&[][..], |b| &**b);
+            self.accept(cx, &[first])
+        }
+    }
+    fn poll_flush(self: Pin<&mut Self>, _: &mut Context) -> Poll<io::Result<()>> {
+        Poll::Ready(Ok(()))
+    }
+    fn poll_close(self: Pin<&mut Self>, _: &mut Context) -> Poll<io::Result<()>> {
+        Poll::Ready(Ok(()))
+    }
+}
+
+struct Flag(AtomicBool);
+impl Wake for Flag {
+    fn wake(self: Arc<Self>) {
+        self.0.store(true, Ordering::SeqCst);
+    }
+    fn wake_by_ref(self: &Arc<Self>) {
+        self.0.store(true, Ordering::SeqCst);
+    }
+}
+
+fn stype(s: u128) -> RecordType {
+    RecordType::try_from(s as u8).expect("record type")
+}
+
+async fn run_script(
+    req: &mut Request<'_, Reader, Writer>,
+    script: Vec<u128>,
+    ev: Arc<Mutex<Args>>,
+) -> io::Result<ExitStatus> {
+    let push = |v: Vec<u128>| ev.lock().expect("ev").push(v);
+    let mut i = 0;
+    while i < script.len() {
+        let a = |k: usize| script.get(i + k).copied().unwrap_or(0);
+        match script[i] {
+            1 => {
+                let mut buf = vec![0u8; a(1) as usize];
+                match req.read(&mut buf).await {
+                    Ok(n) => {
+                        push(vec![1, 1, n as u128]);
+                        push(nums(&buf[..n]));
+                    },
+                    Err(e) => {
+                        push(vec![1, 0, errkind(&e)]);
+                        push(vec![]);
+                    },
+                }
+                i += 2;
+            },
+            2 => {
+                let mut all = Vec::new();
+                let mut buf = [0u8; 64];
+                let res = loop {
+                    match req.read(&mut buf).await {
+                        Ok(0) => break 0,
+                        Ok(n) => all.extend_from_slice(&buf[..n]),
+                        Err(e) => break errkind(&e),
+                    }
+                };
+                push(vec![2, res]);
+                push(nums(&all));
+                i += 1;
+            },
+            3 => {
+                match req.fill_buf().await {
+                    Ok(b) => {
+                        let seen = b.to_vec();
+                        let k = (a(1) as usize).min(seen.len());
+                        req.consume_unpin(k);
+                        push(vec![3, 1, k as u128]);
+                        push(nums(&seen));
+                    },
+                    Err(e) => {
+                        push(vec![3, 0, errkind(&e)]);
+                        push(vec![]);
+                    },
+                }
+                i += 2;
+            },
+            4 => {
+                req.set_stream(stype(a(1)));
+                push(vec![4, req.active_stream().map_or(0, |t| u128::from(u8::from(t)))]);
+                i += 2;
+            },
+            5 => {
+                let r = req.writeable().await;
+                push(vec![5, r.as_ref().map_or_else(errkind, |_| 0), u128::from(req.is_writeable()),
+                          req.active_stream().map_or(0, |t| u128::from(u8::from(t)))]);
+                i += 1;
+            },
+            6 => {
+                let n = a(2) as usize;
+                let data: Vec<u8> = script[i + 3..i + 3 + n].iter().map(|&x| x as u8).collect();
+                if !req.is_writeable() {
+                    push(vec![6, 99]);
+                } else {
+                    let mut w = req.output_stream(stype(a(1)));
+                    let r = w.write_all(&data).await;
+                    push(vec![6, r.as_ref().map_or_else(errkind, |_| 0)]);
+                    if let Err(e) = r {
+                        // a handler that propagates I/O errors
+                        drop(w);
+                        return Err(e);
+                    }
+                }
+                i += 3 + n;
+            },
+            7 => {
+                if req.is_writeable() {
+                    let mut w = req.output_stream(stype(a(1)));
+                    let r = w.flush().await;
+                    push(vec![7, r.as_ref().map_or_else(errkind, |_| 0)]);
+                } else {
+                    push(vec![7, 99]);
+                }
+                i += 2;
+            },
+            8 => {
+                push(vec![8]);
+                return Ok(exit_status(a(1), a(2)).expect("exit status"));
+            },
+            9 => {
+                push(vec![9]);
+                return Err(kind_of(a(1)).into());
+            },
+            _ => panic!("bad handler op"),
+        }
+    }
+    push(vec![8]);
+    Ok(ExitStatus::SUCCESS)
+}
+
+fn mk_handler(
+    scripts: Vec<Vec<u128>>,
+    ev2: Arc<Mutex<Args>>,
+) -> impl for<'a, 'b> FnMut(&'a mut Request<'b, Reader, Writer>) -> BoxFuture<'a, io::Result<ExitStatus>> {
+    let mut served = 0usize;
+    move |req| {
+        let script = if scripts.is_empty() { Vec::new() } else { scripts[served.min(scripts.len() - 1)].clone() };
+        served += 1;
+        let ev3 = ev2.clone();
+        {
+            let mut e = ev3.lock().expect("ev");
+            e.push(vec![100]);
+            // Request has no accessor for the id; role/flags/env are public
+            let mut env: Vec<(Vec<u8>, Vec<u8>)> =
+                req.env_iter().map(|(k, v)| (k.as_ref().as_bytes().to_vec(), v.to_vec())).collect();
+            env.sort();
+            e.push(vec![u128::from(u16::from(req.role())), u128::from(u8::from(req.flags())), env.len() as u128,
+                        req.active_stream().map_or(0, |t| u128::from(u8::from(t))), u128::from(req.is_writeable())]);
+            for (k, v) in env {
+                e.push(nums(&k));
+                e.push(nums(&v));
+            }
+        }
+        Box::pin(run_script(req, script, ev3))
+    }
+}
+
+fn conn_run(a: &Args) -> Args {
+    let cfgv = arg(a, 0);
+    let g = |i: usize| cfgv.get(i).copied().unwrap_or(0);
+    let cfg = config(g(0) as usize, g(1).max(1) as usize);
+    let stop_at = g(3);
+    let segt = arg(a, 3);
+    let segs: Vec<(u128, u128, usize)> = segt.chunks(3).map(|c| (c[0], c[1], c[2] as usize)).collect();
+    let world = Arc::new(Mutex::new(World {
+        rscript: arg(a, 1), ri: 0, wscript: arg(a, 2), wi: 0, segs, seg_i: 0, seg_off: 0,
+        wire: bytes(&arg(a, 4)), pos: 0, wlog: Vec::new(), blocked: false, vectored: g(2) != 0,
+    }));
+    let scripts: Vec<Vec<u128>> = a.iter().skip(5).cloned().collect();
+    let ev: Arc<Mutex<Args>> = Arc::new(Mutex::new(Vec::new()));
+
+    let mut head: Vec<u128> = Vec::new();
+    let mut shutdown_obs: Vec<u128> = Vec::new();
+    let r = catch_unwind(AssertUnwindSafe(|| {
+        let flag = Arc::new(Flag(AtomicBool::new(false)));
+        let waker = Waker::from(flag.clone());
+        let mut cx = Context::from_waker(&waker);
+        let mut runner = Some(cfg.clone().async_runner());
+        let token = {
+            let fut = runner.as_ref().expect("runner").get_token();
+            futures_util::pin_mut!(fut);
+            match fut.poll(&mut cx) {
+                Poll::Ready(t) => t,
+                Poll::Pending => panic!("no token"),
+            }
+        };
+        let handler = mk_handler(scripts, ev.clone());
+        let mut task: Option<Pin<Box<dyn Future<Output = ()>>>> =
+            Some(Box::pin(token.run(Reader(world.clone()), Writer(world.clone()), handler)));
+        let mut shutdown_fut = None;
+        let mut polls: u128 = 0;
+        let outcome;
+        loop {
+            if stop_at != 0 && polls + 1 == stop_at && shutdown_fut.is_none() {
+                shutdown_fut = Some(Box::pin(runner.take().expect("runner").shutdown()));
+            }
+            polls += 1;
+            flag.0.store(false, Ordering::SeqCst);
+            world.lock().expect("world").blocked = false;
+            let res = task.as_mut().expect("task").as_mut().poll(&mut cx);
+            if res.is_ready() {
+                outcome = 0;
+                break;
+            }
+            if flag.0.load(Ordering::SeqCst) {
+                continue;
+            }
+            // not woken: the task waits for the client; an idle connection is woken by shutdown
+            if stop_at != 0 && shutdown_fut.is_none() {
+                shutdown_fut = Some(Box::pin(runner.take().expect("runner").shutdown()));
+                if flag.0.load(Ordering::SeqCst) {
+                    continue;
+                }
+            }
+            outcome = 1;
+            break;
+        }
+        // dropping the task drops the token
+        let mut fut = match shutdown_fut {
+            Some(f) => {
+                // shutdown was requested while the connection was live: Pending until the token is gone
+                let mut f = f;
+                let before = if task.is_some() && outcome == 1 { u128::from(f.as_mut().poll(&mut cx).is_ready()) } else { 2 };
+                shutdown_obs.push(before);
+                task = None;
+                f
+            },
+            None => {
+                task = None;
+                shutdown_obs.push(2);
+                Box::pin(runner.take().expect("runner").shutdown())
+            },
+        };
+        drop(task);
+        shutdown_obs.push(u128::from(fut.as_mut().poll(&mut cx).is_ready()));
+        head = vec![outcome, polls];
+    }));
+    if r.is_err() {
+        head = vec![PANIC];
+    }
+    let w = world.lock().unwrap_or_else(|e| e.into_inner());
+    let mut res = vec![head, vec![w.pos as u128], nums(&w.wlog)];
+    res.extend(ev.lock().unwrap_or_else(|e| e.into_inner()).iter().cloned());
+    res.push(vec![200]);
+    res.push(shutdown_obs);
+    let _ = req_obs;
+    res
 }
